@@ -76,6 +76,10 @@ def portfolio_sync(ctx, corr, tr, ix):
             continue
         if any(h["id"] not in ix.ids for _, a in pre["accounts"] for h in a["holdings"]):
             continue
+        if pre["units"] != pre["units"] or pre["units"] == 0 or pre["static"] != pre["static"]:
+            # no units left (everything was withdrawn) or NaN unit bookkeeping: outside the model, where a unit net value exists (finding F36)
+            ctx.stats["portfolio_ops_without_units_skipped"] += 1
+            continue
         ctx.evaluations += 1
         accts = [str(len(pre["accounts"]))] + [x for _, a in pre["accounts"] for x in acct_sync.ser_acct(ix, a)]
         if op["op"] == "_pre_before_trading":
